@@ -215,8 +215,7 @@ inductive Ev
 deriving DecidableEq, Repr
 
 structure Sess where
-  tree : PM
-  data : PM
+  pm : BlobType → PM                    -- r.treePM / r.dataPM
   chan : List (BlobType × Packer)       -- queued, not yet written to the backend
   uploaded : List (BlobType × Packer)   -- written to the backend, StorePack pending
   indexed : List (BlobType × Packer)    -- StorePack done
@@ -224,7 +223,7 @@ structure Sess where
   accepted : List Blob                  -- newest first
 
 def Sess.init (packSize packerCount : Nat) : Sess :=
-  ⟨PM.init packSize packerCount, PM.init packSize packerCount, [], [], [], [], []⟩
+  ⟨fun _ => PM.init packSize packerCount, [], [], [], [], []⟩
 
 inductive Act
   | save (b : Blob) (idx : Nat)   -- saveAndEncrypt → pm.SaveBlob (dispatch on the blob type)
@@ -233,29 +232,23 @@ inductive Act
   | store (k : Nat)               -- an uploader goroutine finishes idx.StorePack of the k-th uploaded pack
 deriving Repr
 
-def Sess.pm (s : Sess) : BlobType → PM
-  | .tree => s.tree
-  | .data => s.data
-
-def Sess.setPM (s : Sess) (t : BlobType) (pm : PM) : Sess :=
-  match t with
-  | .tree => { s with tree := pm }
-  | .data => { s with data := pm }
+/-- replace the manager of type `t` -/
+def Sess.upd (s : Sess) (t : BlobType) (pm : PM) : BlobType → PM := fun t' => if t' = t then pm else s.pm t'
 
 def Sess.step (c : Cfg) (s : Sess) : Act → Sess
   | .save b idx =>
     -- saveAndEncrypt: `switch t { case TreeBlob: pm = r.treePM; case DataBlob: pm = r.dataPM }`
     match (s.pm b.tpe).saveBlob c b idx with
-    | (pm, .ok _ none) => { s.setPM b.tpe pm with accepted := b :: s.accepted }
+    | (pm, .ok _ none) => { s with pm := s.upd b.tpe pm, accepted := b :: s.accepted }
     | (pm, .ok _ (some q)) =>
-      { s.setPM b.tpe pm with accepted := b :: s.accepted, chan := s.chan ++ [(b.tpe, q)],
-                              log := .queue b.tpe q.serial :: s.log }
+      { s with pm := s.upd b.tpe pm, accepted := b :: s.accepted, chan := s.chan ++ [(b.tpe, q)],
+               log := .queue b.tpe q.serial :: s.log }
     | (_, .panic) => s
   | .flush t =>
     let pend := ((s.pm t).mergePackers c).reverse
-    { s.setPM t ((s.pm t).flush c) with
-      chan := s.chan ++ pend.map (fun q => (t, q)),
-      log := (pend.map (fun q => Ev.queue t q.serial)).reverse ++ s.log }
+    { s with pm := s.upd t ((s.pm t).flush c),
+             chan := s.chan ++ pend.map (fun q => (t, q)),
+             log := (pend.map (fun q => Ev.queue t q.serial)).reverse ++ s.log }
   | .upload k =>
     match s.chan[k]? with
     | none => s
@@ -270,15 +263,14 @@ def Sess.step (c : Cfg) (s : Sess) : Act → Sess
 def Sess.run (c : Cfg) (packSize packerCount : Nat) (acts : List Act) : Sess :=
   acts.foldl (Sess.step c) (Sess.init packSize packerCount)
 
-/-- event order: scanning oldest → newest, every upload is preceded by the queueing of that packer,
-    every index event by its upload, and nothing happens twice -/
-def orderOK (log : List Ev) : Bool :=
-  go log.reverse [] [] []
-where
-  go : List Ev → List (BlobType × Nat) → List (BlobType × Nat) → List (BlobType × Nat) → Bool
-    | [], _, _, _ => true
-    | .queue t s :: rest, q, u, i => !q.contains (t, s) && go rest ((t, s) :: q) u i
-    | .upload t s :: rest, q, u, i => q.contains (t, s) && !u.contains (t, s) && go rest q ((t, s) :: u) i
-    | .index t s :: rest, q, u, i => u.contains (t, s) && !i.contains (t, s) && go rest q u ((t, s) :: i)
+/-- event order on the newest-first log: a packer is queued at most once, uploaded only after it was
+    queued and at most once, indexed only after it was uploaded and at most once -/
+def orderOK : List Ev → Bool
+  | [] => true
+  | e :: older =>
+    orderOK older && match e with
+      | .queue t s => !older.contains (.queue t s)
+      | .upload t s => older.contains (.queue t s) && !older.contains (.upload t s)
+      | .index t s => older.contains (.upload t s) && !older.contains (.index t s)
 
 end Restic.Model.Packer
